@@ -77,11 +77,24 @@ def own_energy_unrestricted(mol, g1, g2, full=False):
 
 
 def iterative_solver_converged(sol):
-    """False only if the backend coupled-cluster object reports that its amplitude (or lambda) iterations did not converge."""
+    """False only if the backend coupled-cluster object reports that its amplitude iterations did not converge, or its lambda
+    iterations cannot be converged.  (A lambda flag that is merely unset - because the lambda equations were never solved for this
+    run - does not excuse anything: the equations are solved here to find out.)"""
     cc = getattr(getattr(sol, "solver", None), "cc_fragment", None)
     if cc is None:
         return True
-    return bool(getattr(cc, "converged", True)) and bool(getattr(cc, "converged_lambda", True))
+    if not bool(getattr(cc, "converged", True)):
+        return False
+    if bool(getattr(cc, "converged_lambda", True)):
+        return True
+    try:
+        import warnings as _w
+        with _w.catch_warnings():
+            _w.simplefilter("ignore")
+            cc.solve_lambda()
+        return bool(getattr(cc, "converged_lambda", True))
+    except Exception:  # noqa
+        return False
 
 
 def build(spec, ctx):
